@@ -38,6 +38,7 @@ import (
 	"hash/fnv"
 	"math/rand"
 	"os"
+	"path/filepath"
 	"runtime/debug"
 	"runtime/pprof"
 	"sort"
@@ -1673,7 +1674,19 @@ func fzRunChild(c *checkCtx, role string, a fzArgs, agg *fzAgg) {
 	var sum fzSummary
 	_, ok := cp.recv(time.Duration(c.pick(5, 40))*time.Minute, &sum)
 	cp.stdin.Close()
+	pid := 0
+	if cp.cmd != nil && cp.cmd.Process != nil {
+		pid = cp.cmd.Process.Pid
+	}
 	ex := cp.wait(20 * time.Second)
+	if pid > 0 {
+		// a child that died could not remove the shared memory files of its victims
+		if m, _ := filepath.Glob(fmt.Sprintf("/dev/shm/verif_%d_fz*", pid)); len(m) > 0 {
+			for _, f := range m {
+				_ = os.Remove(f)
+			}
+		}
+	}
 	if !ok || !sum.Finished {
 		nLast := 4
 		if a.S3 {
